@@ -120,8 +120,10 @@ func zeroRunFile(rng *rand.Rand) (repeatFile, error) {
 		rng.Read(d)
 		content = append(content, d...)
 	}
-	rnd(90<<10 + rng.Intn(200<<10))
-	content = append(content, make([]byte, 2200<<10+rng.Intn(1<<20))...)
+	// (the writer's first chunk is 256 KiB: it takes the random head and the start of the zeros, so
+	// that at least two full-size chunks of nothing but zeros follow it)
+	rnd(60<<10 + rng.Intn(140<<10))
+	content = append(content, make([]byte, 2300<<10+rng.Intn(1<<20))...)
 	rnd(100<<10 + rng.Intn(200<<10))
 	content = append(content, make([]byte, 1100<<10+rng.Intn(1<<20))...)
 	rnd(60<<10 + rng.Intn(100<<10))
